@@ -13,7 +13,7 @@ NONVALUE = lambda v: True
 
 PLAN = {
     "C01": dict(
-        suites=["C01"], mc=["MCRound"], gen=["GenP8"],
+        suites=["C01"], mc=["MCRound"], gen=["GenP8", "GenShapes"], t3_tests=["add", "sub", "mul", "div", "neg"],
         rule="driver: all 2^16 P8E0 pairs x 4 ops; for P16E1/P32E2 specials x lattice, lattice pairs with directed "
              "partners (cancellation, half-ulp ties, nearby scales), uniform random pairs, 8-register dataflow programs; "
              "distinct = distinct (type, op, operands); non-trivial = no operand is zero or NaR",
@@ -22,17 +22,17 @@ PLAN = {
         rule="driver: for each target every (N+1)-bit rounding boundary (all for P8/P16, lattice+random for P32) +-2 float ulps in f32 and f64, "
              "every posit value +-2 ulps, all IEEE exponents x significand classes, subnormals, zeros, infinities, NaNs, random; "
              "distinct = distinct (target, source float bits); non-trivial = every one (floats have no zero/NaR operand rule)"),
-    "C03": dict(suites=["C03"], mc=["MCConv"],
+    "C03": dict(suites=["C03"], mc=["MCConv"], gen=["GenConv"],
         rule="driver: every P8E0 and P16E1 pattern, P32E2 lattice + random; to_f32/to_f64 (3 spellings), f64 and Display/FromStr round trips"),
-    "C05": dict(suites=["C05"], mc=["MCRound"],
+    "C05": dict(suites=["C05"], mc=["MCRound"], gen=["GenFma"],
         rule="driver: triples (a, b, c) with c aimed at -round(a*b) +- j ulp (cancellation), at half-ulp ties of the product, or free; "
              "all three operations; specials^3; dataflow programs"),
     "C06": dict(suites=["C06"], mc=["MCRound"],
         rule="driver: every P8E0/P16E1 pattern; P32E2 lattice + random + perfect squares +-1 ulp"),
-    "C07": dict(suites=["C07"], mc=["MCConv"],
+    "C07": dict(suites=["C07"], mc=["MCConv"], gen=["GenConv"],
         rule="driver: all i8/u8/i16/u16 values; for 32/64-bit types powers of two +-3, odd multiples of half-units at the rounding "
              "position, type bounds, the constants in the code +-2, random; to-int: all P8/P16 patterns, P32 lattice + half-integers + bounds"),
-    "C08": dict(suites=["C08"], mc=["MCConv"],
+    "C08": dict(suites=["C08"], mc=["MCConv"], gen=["GenConv"],
         rule="driver: all P8/P16 source patterns; P32 lattice + every P8/P16 rounding boundary +-2 ulp as a P32 pattern + random"),
     "C09": dict(suites=["C09"], mc=["MCLaws"],
         rule="driver: every P8E0/P16E1 pattern; P32E2 lattice + every scale x {x.0, x.5, +-ulp} + random; five functions"),
@@ -41,18 +41,18 @@ PLAN = {
              "clamp triples; every unary sign/class function on every P8/P16 pattern"),
     "C17": dict(suites=["C17"],
         rule="driver: every spelling of every forwarded operation on the same lattice inputs (validated against one spec function, hence equal)"),
-    "C04": dict(suites=["C04"], mc=["MCQuire"], gen=["GenQuire"],
+    "C04": dict(suites=["C04"], mc=["MCQuire"], gen=["GenQuire"], t3_tests=["q_step", "q_round"], t3_quick=True,
         rule="driver: quire histories of length 1..64 (products and single posits, all spellings, NaR at random positions, "
              "limb-straddling / tiny / huge / cancelling terms), each observed after every step; shuffled replays of the same bag"),
     "C11": dict(suites=["C11"], mc=["MCElem"],
         rule="driver: P8E0 exp/ln on all 256 patterns; P16E1 ten functions on a seeded coset of the 65536 patterns (quick: every 8th + "
              "specials, regime boundaries, kernel thresholds +-3, random; thorough: every pattern); each result judged by TLC against "
              "a rigorous enclosure (ball arithmetic, 64 then 200 bits); distinct = distinct (type, function, input)"),
-    "C15": dict(suites=["C15"], mc=["MCElem"], filter=lambda v: "out-of-domain" not in v.get("diag", ""),
+    "C15": dict(suites=["C15"], mc=["MCElem"], hook_trace=True, filter=lambda v: "out-of-domain" not in v.get("diag", ""),
         rule="driver: per function lattice, random patterns, in-domain magnitudes with random fractions, neighbourhoods of 1 and of "
              "multiples of pi/2, tiny arguments, domain edges +-3 ulp; pairs for hypot/powf; verdict = enclosure within the stated "
              "ULP bound of the result's rounding cell (sound: closed intervals), outside the documented domain nothing is demanded",
-        assumptions=["powf is judged for x > 0 only; atan2 is not judged (quadrant conventions unspecified): totality only, via C16",
+        assumptions=["powf is judged for x > 0 only (other bases are conventions); atan2(0, 0) is not judged (a convention)",
                      "documented domains taken from the crate's own tests: trig |x| < 393216, exp |x| <= 104, exp2 in [-150, 128), sinh/cosh |x| <= 88"]),
     "C19": dict(suites=["C19"],
         rule="driver: scripted RNG word streams enumerating the samplers' pre-image (all 64 P8 outcomes, all 2^18 P16 range values, "
@@ -78,7 +78,7 @@ PLAN = {
         assumptions=["explicit not-implemented stubs are excluded: P32E2 sin/cos/tan for |x| >= 393216 (todo!()), PxE1::from_i64 / from_u32, "
                      "powi, log, log10, exp_m1, ln_1p, num_traits::Float::{abs_sub, integer_decode} (never called by the driver)",
                      "non-termination is observed as no progress for 10 s (the slowest legitimate call takes microseconds)"]),
-    "C18": dict(suites=["C18"], mc=["MCQuire"],
+    "C18": dict(suites=["C18"], mc=["MCQuire"], hook_trace=True,
         rule="driver: x.polyN(&c) for N = 1..18, 3a, 4a, coefficient forms Self and [Self; 1..4], x from {minpos, maxpos, lattice, "
              "random, near 1}, coefficients from lattice/random/zero/NaR, plus well-conditioned cases (x = 2, 1/2, -2, 1.5 with distinct "
              "small coefficients) where a mis-indexed coefficient or wrong power changes the value"),
